@@ -151,4 +151,9 @@ theorem reshuffle_condition (cur : Cursor) (len : Nat) :
     needsShuffle cur len = true ↔ cur = .max ∨ ∃ i, cur = .at i ∧ i ≥ len := by
   cases cur <;> simp [needsShuffle]
 
+/-- what this property means by "active": Alive or Suspect, never Down — over the `is_active` the translator
+    reads from `member.rs` (an obligation of this property since the model follows the source) -/
+theorem active_is_alive_or_suspect (st : St) : Gen.isActive st = (st != .down) := by
+  cases st <;> rfl
+
 end Foca.C14
